@@ -71,6 +71,31 @@ Theorem C20_struct_plan_plain : forall ptr tid fields,
 Proof. exact struct_plan_plain. Qed.
 Print Assumptions C20_struct_plan_plain.
 
+(* A post-action function's field parameter (addFieldFiller): the first parameter whose type is the
+   field's type or a pointer to it; every other parameter is injected from the chain.  (The harness
+   builds post-action functions with several parameters of the field's type; a function with no such
+   parameter is refused.) *)
+Theorem C20_post_action_field_parameter : forall t params k p,
+  field_param t params 0 = Some (k, p) ->
+  nth_error params k = Some (t, p) /\
+  forall j, j < k -> forall ty q, nth_error params j = Some (ty, q) -> ty <> t.
+Proof.
+  intros t params k p H. destruct (field_param_spec t params 0 k p H) as [j [Hk [Hn Hb]]].
+  cbn in Hk. subst k. split; [exact Hn|exact Hb].
+Qed.
+Print Assumptions C20_post_action_field_parameter.
+
+Theorem C20_post_action_without_field_parameter : forall t params,
+  field_param t params 0 = None <-> (forall ty q, In (ty, q) params -> ty <> t).
+Proof. intros t params. exact (field_param_none t params 0). Qed.
+Print Assumptions C20_post_action_without_field_parameter.
+
+Example C20_field_parameter_nonvacuous :
+  (* func(x T1, f *T0, g T0): the pointer parameter is the field, the later T0 comes from the chain *)
+  field_param 0 [(1, false); (0, true); (0, false)] 0 = Some (1, true).
+Proof. reflexivity. Qed.
+Print Assumptions C20_field_parameter_nonvacuous.
+
 Example C20_nonvacuous :
   (* func(a T0, b T1, c T0, d T2) curried to func(c' T0, a' T0) : T1 and T2 injected *)
   match curry_plan (fun _ => false) [0; 1; 0; 2] [0; 0] with
